@@ -26,6 +26,7 @@ Inductive json :=
 Inductive token :=
 | TObjS | TObjE | TArrS | TArrE | TComma | TColon
 | TStr (s : string)      (* a string value or an object key: s is the DECODED content (any bytes) *)
+| TStrJ (s : string)     (* a string written by encoding/json.Marshal(s): s is the Go string (any bytes) *)
 | TRaw (s : string)      (* a number written with WriteRaw/WriteFloat64/WriteInt64: s is the text *)
 | TTrue | TFalse | TNull
 | TWs (s : string).      (* insignificant white space of hand-written literal chunks *)
@@ -66,11 +67,86 @@ Fixpoint quote_body (s : string) : string :=
   match s with EmptyString => EmptyString | String c r => (esc_char c ++ quote_body r)%string end.
 Definition quote (s : string) : string := String (chr 34) (quote_body s ++ str1 34)%string.
 
+(* encoding/json (encode.go appendString with escapeHTML = true), as used by json.Marshal(string):
+   ASCII: the double quote and the backslash get a backslash, BS FF LF CR TAB their short form, other
+   bytes < 0x20 and < > & become \u00XY; a byte that does not start a valid UTF-8 sequence becomes
+   \ufffd; U+2028 / U+2029 become \u2028 / \u2029; every other valid sequence is copied. *)
+Definition gj_esc (c : ascii) : string :=
+  let n := code c in
+  if (n =? 34)%N then String (chr 92) (str1 34)
+  else if (n =? 92)%N then String (chr 92) (str1 92)
+  else if (n =? 8)%N then String (chr 92) (str1 98)
+  else if (n =? 12)%N then String (chr 92) (str1 102)
+  else if (n =? 10)%N then String (chr 92) (str1 110)
+  else if (n =? 13)%N then String (chr 92) (str1 114)
+  else if (n =? 9)%N then String (chr 92) (str1 116)
+  else if (n <? 32)%N || (n =? 60)%N || (n =? 62)%N || (n =? 38)%N then
+    String (chr 92) (String (chr 117) (String (chr 48) (String (chr 48)
+      (String (hexdig (n / 16)) (String (hexdig (n mod 16)) EmptyString)))))
+  else String c EmptyString.
+(* utf8.DecodeRuneInString: which byte sequences are one valid rune *)
+Definition is_cont (y : N) : bool := (128 <=? y)%N && (y <=? 191)%N.
+Definition utf8_two (x y : N) : bool := (194 <=? x)%N && (x <=? 223)%N && is_cont y.
+Definition utf8_three (x y z : N) : bool :=
+  (((x =? 224)%N && (160 <=? y)%N && (y <=? 191)%N) ||
+   ((((225 <=? x)%N && (x <=? 236)%N) || ((238 <=? x)%N && (x <=? 239)%N)) && is_cont y) ||
+   ((x =? 237)%N && (128 <=? y)%N && (y <=? 159)%N)) && is_cont z.
+Definition utf8_four (x y z w : N) : bool :=
+  (((x =? 240)%N && (144 <=? y)%N && (y <=? 191)%N) ||
+   ((241 <=? x)%N && (x <=? 243)%N && is_cont y) ||
+   ((x =? 244)%N && (128 <=? y)%N && (y <=? 143)%N)) && is_cont z && is_cont w.
+Definition ufffd_esc : string :=
+  String (chr 92) (String (chr 117) (String (chr 102) (String (chr 102) (String (chr 102) (str1 100))))).
+Definition ufffd_bytes : string := String (chr 239) (String (chr 191) (str1 189)).
+Definition u202x_esc (z : N) : string :=
+  String (chr 92) (String (chr 117) (String (chr 50) (String (chr 48) (String (chr 50) (String (hexdig (z mod 16)) EmptyString))))).
+Definition is_linesep (x y z : N) : bool := (x =? 226)%N && (y =? 128)%N && ((z =? 168)%N || (z =? 169)%N).
+
+(* both at once: (what json.Marshal writes between the quotes, what a JSON reader decodes it to) *)
+Fixpoint gj_walk (s : string) : string * string :=
+  match s with
+  | EmptyString => (EmptyString, EmptyString)
+  | String a r =>
+    let x := code a in
+    let bad := let (e, d) := gj_walk r in ((ufffd_esc ++ e)%string, (ufffd_bytes ++ d)%string) in
+    if (x <? 128)%N then let (e, d) := gj_walk r in ((gj_esc a ++ e)%string, String a d)
+    else
+      match r with
+      | String b r2 =>
+        let y := code b in
+        if utf8_two x y then let (e, d) := gj_walk r2 in (String a (String b e), String a (String b d))
+        else
+          match r2 with
+          | String c r3 =>
+            let z := code c in
+            if utf8_three x y z then
+              let (e, d) := gj_walk r3 in
+              ((if is_linesep x y z then (u202x_esc z ++ e)%string else String a (String b (String c e))),
+               String a (String b (String c d)))
+            else
+              match r3 with
+              | String g r4 =>
+                if utf8_four x y z (code g) then
+                  let (e, d) := gj_walk r4 in
+                  (String a (String b (String c (String g e))), String a (String b (String c (String g d))))
+                else bad
+              | EmptyString => bad
+              end
+          | EmptyString => bad
+          end
+      | EmptyString => bad
+      end
+  end.
+Definition gojson_body (s : string) : string := fst (gj_walk s).
+Definition sanitize (s : string) : string := snd (gj_walk s).
+Definition gojson_quote (s : string) : string := String (chr 34) (gojson_body s ++ str1 34)%string.
+
 Definition render_tok (t : token) : string :=
   match t with
   | TObjS => str1 123 | TObjE => str1 125 | TArrS => str1 91 | TArrE => str1 93
   | TComma => str1 44 | TColon => str1 58
   | TStr s => quote s
+  | TStrJ s => gojson_quote s
   | TRaw s => s
   | TTrue => "true" | TFalse => "false" | TNull => "null"
   | TWs s => s
@@ -80,6 +156,9 @@ Fixpoint render (ts : list token) : string :=
 
 Definition is_ws_tok (t : token) : bool := match t with TWs _ => true | _ => false end.
 Definition strip (ts : list token) : list token := filter (fun t => negb (is_ws_tok t)) ts.
+(* what a reader sees: no white space; a json.Marshal-ed string is the string it decodes to *)
+Definition norm_tok (t : token) : token := match t with TStrJ s => TStr (sanitize s) | _ => t end.
+Definition prep (ts : list token) : list token := map norm_tok (strip ts).
 
 (* ------------------------------------------------------------------------------------------ *)
 (* the byte-level reader (specification oracle) *)
@@ -288,7 +367,7 @@ with parse_members (n : nat) (ts : list token) {struct n} : option (list (string
   end.
 
 Definition parse (ts : list token) : option json :=
-  let ts' := strip ts in
+  let ts' := prep ts in
   match parse_val (S (List.length ts')) ts' with Some (d, []) => Some d | _ => None end.
 
 Definition parse_bytes (s : string) : option json :=
@@ -453,6 +532,37 @@ Definition enc_tail (h : hdr_test) (bs : list (list entry)) : list token :=
          (wObjectStart ++ wObjectField "streams" ++ wArrayStart) (wArrayEnd ++ wObjectEnd) bs.
 
 (* ------------------------------------------------------------------------------------------ *)
+(* list endpoints: for x := range ch { if i != 0 { write "," }; write item; i++ } *)
+Fixpoint list_loop (item : string -> list token) (xs : list string) (i : bool) : list token :=
+  match xs with
+  | [] => []
+  | x :: r => (if i then [TComma] else []) ++ item x ++ list_loop item r true
+  end.
+Definition sp : token := TWs " ".
+(* TempoController.Tags / Values (after fix #24: json.Marshal of every tag) *)
+Definition enc_tempo_list (key : string) (xs : list string) : list token :=
+  [TObjS; TStr key; TColon; sp; TArrS] ++ list_loop (fun x => [TStrJ x]) xs false ++ [TArrE; TObjE].
+Definition enc_tempo_tags := enc_tempo_list "tagNames".
+Definition enc_tempo_values := enc_tempo_list "tagValues".
+(* QueryLabelsService.GenericLabelReq (labels, label values) *)
+Definition enc_labels (xs : list string) : list token :=
+  [TObjS; TStr "status"; TColon; sp; TStr "success"; TComma; TStr "data"; TColon; sp; TArrS] ++
+  list_loop (fun x => [TStrJ x]) xs false ++ [TArrE; TObjE].
+(* QueryLabelsService.Series splices the stored label documents verbatim: modelled on bytes *)
+Fixpoint bytes_loop (xs : list string) (i : bool) : string :=
+  match xs with
+  | [] => EmptyString
+  | x :: r => ((if i then "," else "") ++ x ++ bytes_loop r true)%string
+  end.
+Definition enc_series_bytes (xs : list string) : string :=
+  ("{""status"":""success"", ""data"":[" ++ bytes_loop xs false ++ "]}")%string.
+
+Definition doc_tempo_list (key : string) (xs : list string) : json :=
+  JObj [(key, JArr (map (fun x => JStr (sanitize x)) xs))].
+Definition doc_labels (xs : list string) : json :=
+  JObj [("status", JStr "success"); ("data", JArr (map (fun x => JStr (sanitize x)) xs))].
+
+(* ------------------------------------------------------------------------------------------ *)
 (* the intended documents *)
 
 (* contiguous runs of equal fingerprint: (first entry of the run, the others) *)
@@ -506,7 +616,7 @@ Definition tok_eqb (a b : token) : bool :=
   match a, b with
   | TObjS, TObjS | TObjE, TObjE | TArrS, TArrS | TArrE, TArrE | TComma, TComma | TColon, TColon
   | TTrue, TTrue | TFalse, TFalse | TNull, TNull => true
-  | TStr x, TStr y | TRaw x, TRaw y | TWs x, TWs y => String.eqb x y
+  | TStr x, TStr y | TStrJ x, TStrJ y | TRaw x, TRaw y | TWs x, TWs y => String.eqb x y
   | _, _ => false
   end.
 
@@ -581,38 +691,60 @@ Definition dec_Z (s : string) : Z :=
   end.
 Definition dec_nat (s : string) : nat := N.to_nat (dec_N s 0).
 
-Inductive enc_kind := KStreams | KMatrix | KTail.
+Inductive enc_kind := KStreams | KMatrix | KTail | KTags | KTagValues | KLabels | KSeries.
 Record case := {
   c_id : Z;
   c_kind : enc_kind;
   c_batches : list (list entry);   (* labels of each entry in the order observed in the output (see harness) *)
+  c_items : list string;           (* list endpoints: tag names, label values, stored label documents *)
   c_out : string                   (* concatenated chunks the implementation sent *)
 }.
 
 (* the header test of the code under /repo today (after fix #23) *)
 Definition cur_hdr : hdr_test := HdrFirstOrFp.
 
-Definition model_tokens (c : case) : list token :=
+Definition model_bytes (c : case) : string :=
   match c_kind c with
-  | KStreams => enc_streams cur_hdr (c_batches c)
-  | KMatrix => enc_matrix (c_batches c)
-  | KTail => enc_tail cur_hdr (c_batches c)
+  | KStreams => render (enc_streams cur_hdr (c_batches c))
+  | KMatrix => render (enc_matrix (c_batches c))
+  | KTail => render (enc_tail cur_hdr (c_batches c))
+  | KTags => render (enc_tempo_tags (c_items c))
+  | KTagValues => render (enc_tempo_values (c_items c))
+  | KLabels => render (enc_labels (c_items c))
+  | KSeries => enc_series_bytes (c_items c)
   end.
-Definition spec_doc (c : case) : json :=
+Fixpoint all_some {A} (l : list (option A)) : option (list A) :=
+  match l with
+  | [] => Some []
+  | Some x :: r => match all_some r with Some r' => Some (x :: r') | None => None end
+  | None :: _ => None
+  end.
+(* None: the property does not speak about this case (a stored label document that is not JSON) *)
+Definition spec_doc (c : case) : option json :=
   match c_kind c with
-  | KStreams => doc_streams (c_batches c)
-  | KMatrix => doc_matrix (c_batches c)
-  | KTail => doc_tail (c_batches c)
+  | KStreams => Some (doc_streams (c_batches c))
+  | KMatrix => Some (doc_matrix (c_batches c))
+  | KTail => Some (doc_tail (c_batches c))
+  | KTags => Some (doc_tempo_list "tagNames" (c_items c))
+  | KTagValues => Some (doc_tempo_list "tagValues" (c_items c))
+  | KLabels => Some (doc_labels (c_items c))
+  | KSeries => match all_some (map parse_bytes (c_items c)) with
+               | Some ds => Some (JObj [("status", JStr "success"); ("data", JArr ds)])
+               | None => None
+               end
   end.
 
-Definition model_mismatch (c : case) : bool := negb (String.eqb (render (model_tokens c)) (c_out c)).
+Definition model_mismatch (c : case) : bool := negb (String.eqb (model_bytes c) (c_out c)).
 (* the property itself, evaluated on what the implementation sent: one JSON document, equal (up to
    member order) to the intended document of the rows *)
 Definition spec_violation (c : case) : bool :=
   if forallb (forallb no_fail) (c_batches c) then
-    match parse_bytes (c_out c) with
-    | Some d => negb (json_eq d (spec_doc c))
-    | None => true
+    match spec_doc c with
+    | Some want => match parse_bytes (c_out c) with
+                   | Some d => negb (json_eq d want)
+                   | None => true
+                   end
+    | None => false
     end
   else false.   (* a failing back-end is outside the property: only the transcription is compared *)
 Definition unreadable_case (c : case) : bool :=
@@ -622,7 +754,7 @@ Definition spec_violations (cs : list case) : list Z := map c_id (filter spec_vi
 Definition unreadable (cs : list case) : list Z := map c_id (filter unreadable_case cs).
 
 (* decoding of a transported case:
-   id | kind | #labelsets { #pairs { k | v } } | #batches { #entries { fp | labelset | ts | err | msg | tsf | val } } | out *)
+   id | kind | #labelsets { #pairs { k | v } } | #batches { #entries { fp | labelset | ts | err | msg | tsf | val } } | #items { item } | out *)
 Fixpoint take_pairs (n : nat) (fs : list string) : option (list (string * string) * list string) :=
   match n with
   | O => Some ([], fs)
@@ -680,17 +812,33 @@ Fixpoint take_batches (ls : list (list (string * string))) (n : nat) (fs : list 
            | [] => None
            end
   end.
+Fixpoint take_items (n : nat) (fs : list string) : option (list string * list string) :=
+  match n with
+  | O => Some ([], fs)
+  | S n => match fs with
+           | x :: r => match take_items n r with Some (l, r') => Some (unesc x :: l, r') | None => None end
+           | [] => None
+           end
+  end.
 Definition dec_kind (s : string) : option enc_kind :=
   if String.eqb s "streams" then Some KStreams
   else if String.eqb s "matrix" then Some KMatrix
-  else if String.eqb s "tail" then Some KTail else None.
+  else if String.eqb s "tail" then Some KTail
+  else if String.eqb s "tags" then Some KTags
+  else if String.eqb s "tagvalues" then Some KTagValues
+  else if String.eqb s "labels" then Some KLabels
+  else if String.eqb s "series" then Some KSeries else None.
 Definition decode_case (x : lbytes) : option case :=
   match split_bar (string_of_list_byte (unLB x)) (fun y => y) with
   | id :: kind :: nls :: r =>
     match dec_kind kind, take_lsets (dec_nat nls) r with
     | Some k, Some (ls, nb :: r') =>
       match take_batches ls (dec_nat nb) r' with
-      | Some (bs, [o]) => Some {| c_id := dec_Z id; c_kind := k; c_batches := bs; c_out := unesc o |}
+      | Some (bs, ni :: r'') =>
+        match take_items (dec_nat ni) r'' with
+        | Some (its, [o]) => Some {| c_id := dec_Z id; c_kind := k; c_batches := bs; c_items := its; c_out := unesc o |}
+        | _ => None
+        end
       | _ => None
       end
     | _, _ => None
